@@ -187,3 +187,30 @@ package parser
 //@ func New
 //@   ensures fresh_parser: result != nil && fresh(result) && fresh(result.fieldScanner) && result.inputScanner != nil && result.fieldScanner != nil && !scstarted(result.inputScanner) && !scdone(result.inputScanner)
 //@   ensures field_parser_configured: result.fieldScanner.removeBOM && !result.fieldScanner.keepComments && result.fieldScanner.err == nil && result.fieldScanner.data == "" && !result.fieldScanner.started
+
+// ---------------------------------------------------------------------------------------------------------
+// parser.go: splitFunc - where the scanner may cut the stream into event tokens (C01, C20)
+// ---------------------------------------------------------------------------------------------------------
+
+// finalnl(d, a): start of the newline sequence that ends right before position a (a CRLF pair counts as one)
+//@ pure finalnl(d, a) = ite(a >= 2 && d[a-1] == '\n' && d[a-2] == '\r', a-2, a-1)
+// eventend(d, a): position a is just after a blank line that follows a non-blank line
+//@ pure eventend(d, a) = a >= 2 && isNL(d[a-1]) && finalnl(d, a) >= 1 && isNL(d[finalnl(d, a)-1])
+
+//@ func splitFunc
+//@   ensures never_fails: err == nil
+//@   ensures within_the_window: 0 <= advance && advance <= len(data)
+//@   ensures nothing_from_nothing: len(data) == 0 ==> advance == 0 && len(token) == 0
+//@   ensures no_token_without_advance: advance == 0 ==> len(token) == 0
+//@   ensures only_complete_events_before_eof: !atEOF && advance > 0 ==> eventend(data, advance)
+//@   ensures eof_flushes_the_rest: atEOF && len(data) > 0 ==> advance == len(data) || eventend(data, advance)
+//@   ensures token_is_a_slice_of_the_window: advance > 0 ==> len(token) <= advance && token == substr(data, advance - len(token), advance)
+//@   ensures only_blank_lines_are_skipped: advance > 0 ==> forall(j, 0, advance - len(token), isNL(data[j]))
+//@   ensures token_starts_with_content: advance > 0 && len(token) > 0 ==> !isNL(token[0])
+//@   ensures complete_event_has_content: !atEOF && advance > 0 ==> len(token) > 0
+//@   invariant 0 window: 0 <= start && start <= advance && advance <= len(data) && len(data) > 0
+//@   invariant 0 skipped_are_blank: forall(j, 0, start, isNL(data[j]))
+//@   invariant 0 at_a_line_start: advance == 0 || isNL(data[advance-1])
+//@   invariant 0 content_starts_at_start: start < advance ==> !isNL(data[start])
+//@   invariant 0 more_to_scan: advance < len(data)
+//@   invariant 0 blank_so_far_or_content: start == advance || !isNL(data[advance])
